@@ -40,6 +40,7 @@ func (c09) Assumptions() []string {
 
 func (c09) Gates(tier string, m map[string]int64) []rt.Gate {
 	gs := []rt.Gate{
+		rt.GateMin("stores with integers beyond 2^53 under collecting/comparing aggregates", m, "bigint_values", 100),
 		rt.GateMin("filters that use a GROUP BY field by name", m, "group_field_named_in_where", 200),
 		rt.GateMin("stores whose keys contain NUL bytes (tuples colliding under a NUL separator)", m, "store_with_nul_bytes", 100),
 		rt.GateMin("aggregate statements judged", m, "judged", 2000),
@@ -203,6 +204,20 @@ func (k c09) Run(c *rt.Ctx) {
 		}
 		return gen.Call("upper", part(0))
 	}
+	bigints := false
+	if !floats && !implicit && r.Chance(1, 12) {
+		// integers beyond 2^53 and at the ends of the int64 range: an aggregate that collects
+		// or compares them must keep them exact (no sums: they would overflow)
+		big := []string{"9007199254740993", "9223372036854775807", "-9223372036854775808", "9007199254740992", "-9007199254740993", "4611686018427387905"}
+		for i := range pairs {
+			if i%3 != 1 {
+				pairs[i].V = big[r.Intn(len(big))]
+			}
+		}
+		numArg = func() *gen.Node { return gen.Call("int", gen.Value()) }
+		bigints = true
+		c.Rec.Inc("bigint_values")
+	}
 	var aggs []c09Agg
 	na := r.Range(1, 4)
 	for i := 0; i < na; i++ {
@@ -229,6 +244,13 @@ func (k c09) Run(c *rt.Ctx) {
 			}
 		default:
 			aggs = append(aggs, c09Agg{name: "group_concat", arg: numArg(), sep: ","})
+		}
+	}
+	if bigints {
+		for i := range aggs {
+			if aggs[i].name == "sum" || aggs[i].name == "avg" {
+				aggs[i] = c09Agg{name: "json_arrayagg", arg: numArg()}
+			}
 		}
 	}
 	// aggregate select
@@ -692,7 +714,9 @@ func c09Same(aggName string, want refeval.Val, got string) bool {
 		// compare as parsed JSON
 		s := c09Render(got)
 		var arr []any
-		if err := json.Unmarshal([]byte(s), &arr); err != nil || len(arr) != len(want.L) {
+		dec := json.NewDecoder(strings.NewReader(s))
+		dec.UseNumber() // integers are compared exactly, not through float64
+		if err := dec.Decode(&arr); err != nil || len(arr) != len(want.L) {
 			return false
 		}
 		for i, e := range want.L {
@@ -702,11 +726,23 @@ func c09Same(aggName string, want refeval.Val, got string) bool {
 					return false
 				}
 			case refeval.VInt:
-				if x, ok := arr[i].(float64); !ok || x != float64(e.I) {
+				x, ok := arr[i].(json.Number)
+				if !ok {
 					return false
 				}
+				if n, err := x.Int64(); err != nil || n != e.I {
+					// an integer may be shown in float notation only if nothing is lost
+					f, ferr := x.Float64()
+					if ferr != nil || float64(e.I) != f || e.I > 1<<53 || e.I < -(1<<53) {
+						return false
+					}
+				}
 			case refeval.VFloat:
-				if x, ok := arr[i].(float64); !ok || x != e.F {
+				x, ok := arr[i].(json.Number)
+				if !ok {
+					return false
+				}
+				if f, err := x.Float64(); err != nil || f != e.F {
 					return false
 				}
 			}
